@@ -55,6 +55,8 @@ def show_type(t):
         return f"C[{show_label(t[1])} -> {show_label(t[2])}]"
     if t[0] == "CT":
         return f"C[tau -> tau + {show_label(t[1])}]"
+    if t[0] == "CI":
+        return "C[tau -> tau] (identity)"
     return str(t)
 
 
@@ -127,8 +129,8 @@ class TEnv:
             if name in ("rescale_cholesky", "rescale_noise", "preconditioner_apply"):
                 return self.of(recv)
             if name == "identity_conditional":
-                t = self.of(recv)
-                return ("C", t[1], t[1]) if t and t[0] in ("N", "P") else None
+                # the identity map with zero noise is the same object at every time: C[tau -> tau] for all tau
+                return ("CI",)
             if name == "marginalise":
                 rv = rest[0] if rest else None
                 return self._push(v, recv, rv, "marginalise")
@@ -141,6 +143,10 @@ class TEnv:
                 return ("N", t[1]) if t and t[0] == "N" else None
             if name == "merge":
                 to_, ti = self.of(recv), self.of(rest[0]) if rest else None
+                if to_ is not None and to_[0] == "CI":
+                    return ti
+                if ti is not None and ti[0] == "CI":
+                    return to_
                 if to_ is None or ti is None or to_[0] != "C" or ti[0] != "C":
                     if to_ and ti and to_[0] == "CT" and ti[0] == "C":
                         return ("C", ti[1], add(ti[2], to_[1]))
@@ -165,7 +171,7 @@ class TEnv:
                     if idx == 0:
                         return n
                     trv = self.of(rv)
-                    return ("C", n[1], trv[1]) if trv else None
+                    return ("C", n[1], trv[1]) if trv and trv[0] in ("N", "P") else None
                 if name in ("bayes_rule_and_logpdf_tree", "bayes_rule_and_residual_whitened_rms_tree") and idx == 1:
                     rv = rest[1] if len(rest) > 1 else None
                     t = self.of(rv)
@@ -190,6 +196,8 @@ class TEnv:
             return ("N", tr[1]) if tr and tr[0] in ("N", "P") else None
         if tc is None:
             return None
+        if tc[0] == "CI":
+            return ("N", tr[1]) if tr and tr[0] in ("N", "P") else None
         if tc[0] == "CT":
             if tr is None:
                 return None
